@@ -30,7 +30,8 @@ open Galaxy.Generated.Policy
     matches lives in the policy's namespace, both selectors provided every pod the pod selector matches lives in a
     namespace the namespace selector matches; non-empty peer lists; every port entry numbered; per rule any number
     of ipBlocks whose excepts are strictly narrower than their own cidr and share no address with the cidr of another
-    ipBlock of the rule; no emitted rule with more than 15 ports of one protocol (iptables' multiport limit); no pod of the node isolated in both directions; not both
+    ipBlock of the rule; (port lists of any length: the compiler splits them over rules of at most 15 ports,
+    `multiport_fixed`); no pod of the node isolated in both directions; not both
     (source egress-isolated here) and (destination ingress-isolated here); INPUT/OUTPUT flows address the host. -/
 theorem enforces_k8s_partial (c : Cluster) (ps : List NetPol) (node : String) (f : Flow)
     (h : inFragment c ps node f = true) :
@@ -186,20 +187,38 @@ theorem counter_relabel_stale :
     walk (fullSync k cNew ps "node1").1.sets (fullSync k cNew ps "node1").1.tbl f = .drop := by
   decide
 
-/-- (m) MULTIPORT LIMIT (corpus/C16/m.ops): policy x allows 16 TCP ports from namespace ns1.  galaxy emits one rule whose
-    multiport match lists 16 ports; iptables takes at most 15 and refuses the rule and with it the whole batch, so no
-    policy chain and (the pod batches jumping to missing chains) no pod chain exists: the node enforces NOTHING — a flow
-    to port 9999 is accepted although the API semantics refuse it.  `inFragment` excludes it (`overLimit`). -/
+/-- (m) MULTIPORT LIMIT as it was BEFORE the fix 8f04d5f (rendering with `chunk = 0`): 16 TCP ports were put into ONE
+    rule, which exceeds iptables' 15 ports per multiport match; iptables-restore refuses that rule and with it the
+    whole policy batch (then every pod batch dangles and nothing is enforced on the node). -/
 theorem counter_multiport :
-    let c : Cluster := ⟨nss2, [podA, podB "node2" "b"]⟩
-    let ps := [polX [.ingress] [⟨[.nss (lbl [("name", "ns1")])],
-      (List.range 16).map (fun i => (⟨.tcp, some (8000 + i)⟩ : Port))⟩] []]
-    let f : Flow := ⟨.forward, .tcp, ip4 10 0 1 2, ip4 10 0 1 1, 9999⟩
-    overLimit ps = true ∧ inFragment c ps "node1" f = false ∧
-    walk (compileSets c ps) (compileTable c ps "node1") f = .accept ∧ k8sAllowsOn "node1" c ps f = false ∧
-    -- the same from the empty kernel through the sync model: batch refused, then the pod batch dangles
-    (fullSync ⟨[], [(.forward, []), (.input, []), (.output, [])]⟩ c ps "node1").2 =
-      [.restoreTooManyPorts, .restoreNoTarget] := by
+    (tplRulesWith 0 "x_ns1" ⟨.sip, 0, "H"⟩ ⟨.sel, 0, "H"⟩ ((List.range 16).map (8000 + ·)) []).length = 1 ∧
+    (tplRulesWith 0 "x_ns1" ⟨.sip, 0, "H"⟩ ⟨.sel, 0, "H"⟩ ((List.range 16).map (8000 + ·)) []).all
+      (fun r => !r.portsOK) = true ∧
+    (tplRulesWith 0 "x_ns1" ⟨.sip, 0, "H"⟩ ⟨.sel, 0, "H"⟩ ((List.range 16).map (8000 + ·)) []).map
+      (fun r => match applyCmd ⟨[⟨⟨.sip, 0, "H"⟩, .hashIP, []⟩, ⟨⟨.sel, 0, "H"⟩, .hashIP, []⟩], []⟩
+          [(.plcy "H", [])] (.app (.plcy "H") r) with
+        | .error e => some e
+        | .ok _ => none) = [some Fail.restoreTooManyPorts] := by
+  decide
+
+/-- the current source (regenerated `multiportChunk`) splits the ports over rules of at most 15: every emitted rule is
+    accepted by iptables (`overLimit_false`, used by `enforces_k8s_partial`), and on the witness of corpus/C16/m.ops
+    (16 TCP ports allowed from ns1) the sync reports no failure, the 16th port is admitted, another port is dropped,
+    as the API semantics say — inside the fragment. -/
+theorem multiport_fixed :
+    multiportChunk = 15 ∧ (∀ ps, overLimit ps = false) ∧
+    (let c : Cluster := ⟨nss2, [podA, podB "node2" "b"]⟩
+     let ps := [polX [.ingress] [⟨[.nss (lbl [("name", "ns1")])],
+       (List.range 16).map (fun i => (⟨.tcp, some (8000 + i)⟩ : Port))⟩] []]
+     let f16 : Flow := ⟨.forward, .tcp, ip4 10 0 1 2, ip4 10 0 1 1, 8015⟩
+     let fx : Flow := ⟨.forward, .tcp, ip4 10 0 1 2, ip4 10 0 1 1, 9999⟩
+     (policyChain (polX [.ingress] [⟨[.nss (lbl [("name", "ns1")])],
+       (List.range 16).map (fun i => (⟨.tcp, some (8000 + i)⟩ : Port))⟩] [])).length = 2 ∧
+     inFragment c ps "node1" f16 = true ∧
+     walk (compileSets c ps) (compileTable c ps "node1") f16 = .accept ∧ k8sAllowsOn "node1" c ps f16 = true ∧
+     walk (compileSets c ps) (compileTable c ps "node1") fx = .drop ∧ k8sAllowsOn "node1" c ps fx = false ∧
+     (fullSync ⟨[], [(.forward, []), (.input, []), (.output, [])]⟩ c ps "node1").2 = []) := by
+  refine ⟨by decide, overLimit_false, ?_⟩
   decide
 
 /-- every hypothesis class of the fragment is needed: each witness above is outside `inFragment` -/
@@ -235,9 +254,13 @@ theorem template_plcy_all (chain cm : String) (s d : SetName) :
         (fun _ => instTpl (plcyVars chain cm s.render d.render) (fun _ => []) (fun _ => []) plcySetRules) plcyAll := by
   simp [instTpl, instTok, plcyVars, plcyAll, plcySetRules, PRule.render, Mt.render, Tgt.render]
 
-/-- the guards of the three templates are the ones `tplRules` uses -/
+/-- the guards of the three templates are the ones `tplRules` uses: a chunk loop of `maxMultiportPorts` = 15 ports for
+    tcp and for udp (each iteration builds its words afresh: `template_plcy_tcp/udp` hold per chunk), the port-less
+    rule when there are no numbered ports -/
 theorem fact_plcy_guards :
-    plcyGuards = ["len(tcpPorts) > 0", "len(udpPorts) > 0", "len(tcpPorts) == 0 && len(udpPorts) == 0"] ∧
+    plcyGuards = ["for i := 0; i < len(tcpPorts); i += maxMultiportPorts",
+      "for i := 0; i < len(udpPorts); i += maxMultiportPorts", "len(tcpPorts) == 0 && len(udpPorts) == 0"] ∧
+    multiportChunk = 15 ∧
     plcyOuterLoop = ("srcTableName", "srcTableNames") ∧ plcyInnerLoop = ("dstTableName", "dstTableNames") := by
   decide
 
